@@ -123,4 +123,23 @@ PROPS = {
             "known finding C13-F1: '<agent>/<item>' names collide for distinct pairs when names contain '/'; histories with colliding pairs are excused by the decidable predicate name_collision",
         ],
     ),
+    "C02": dict(
+        coq_targets=["Props/C02.vo"],
+        harness=[dict(pkg="h_agent", bin="c02", cases={"quick": 600, "thorough": 8000},
+                      checkers=["corr", "oracle"], timeout=1800),
+                 dict(pkg="h_agent", bin="c02l", cases={"quick": 600, "thorough": 6000},
+                      checkers=["corr", "oracle"], timeout=1800)],
+        allowed_axioms=[],
+        trusted_base=[
+            "HashMap / BTreeMap / VecDeque as association lists and lists (HashMap::insert and BTreeMap::insert keep the key object already present); slice::sort_by as a stable insertion sort (any correct stable sort gives the same list; C02_drop_take_order_independent)",
+            "a key is (class, spelling): the harness key pools are built from the real Eq / Ord / Hash of swimos_model::Value and the real compare_recon_values, asserted at start-up (classes ==, class index = rank in Value::cmp, equal keys hash alike)",
+            "usize epochs are 64 bit (wrapping arithmetic written out mod 2^64; the real queues are started at epochs at and near usize::MAX through the verif_with_head_epoch hook)",
+            "hooks: swimos_agent feature `verif` re-exports event_queue::EventQueue and lanes::queues::{WriteQueues, ToWrite}; swimos_runtime feature `verif` re-exports backpressure::MapOperationQueue; both add verif_with_head_epoch constructors; the lane-level harness uses public API only",
+        ],
+        assumptions=[
+            "fewer than 2^64 operations per run (len ops + 1 < W)",
+            "theorems cover: both coalescing queues for every push/pop interleaving and starting epoch; the lane's command handlers + write path for a consumer of standard events; take/drop key designation and exact removal. Checked by correspondence + oracle only (partial): per-remote sync replicas (SyncEvent / Synced), HashMap iteration order of sync requests (not generated), the composition agent queue -> byte channel -> runtime MapOperationQueue -> remote, task interleavings of the agent runtime",
+            "the ghost value carried by a queued update in the lane model is never observed; C02_queued_value_is_current proves it equals the map value read at write time",
+        ],
+    ),
 }
